@@ -1,13 +1,18 @@
 #!/bin/bash
-# usage: tools/try_mutation.sh <patch.diff> <Cxx> [more Cxx...]   — applies the patch to /repo, runs the checks, undoes it
+# usage: tools/try_mutation.sh <patch.diff> <Cxx> [more Cxx...]
+# Applies the patch to a scratch copy of /repo (never /repo itself), runs the checks against it
+# through VERIF_REPO, and restores the copy.  SEEDS="1 2 3" TIER=quick|thorough
 set -u
 patch=$1; shift
-cd /repo && git apply "$patch" || { echo "PATCH DOES NOT APPLY"; exit 3; }
+M=/var/tmp/ovm-mutrepo
+mkdir -p $M
+rsync -a --delete --exclude _build --exclude .git /repo/ $M/
+(cd $M && patch -p1 -s < "$patch") || { echo "PATCH DOES NOT APPLY"; exit 3; }
 cd /verif
 for p in "$@"; do
   for seed in ${SEEDS:-1}; do
-    out=$(VERIF_SEED=$seed ./check $p --tier quick 2>/dev/null | grep -v auto_activate | grep -E "VIOLATION|KNOWN" | head -3)
-    echo "[$p seed=$seed] exit=$? :: ${out:-<no alarm>}"
+    out=$(VERIF_REPO=$M VERIF_SEED=$seed ./check $p --tier ${TIER:-quick} 2>/dev/null | grep -v auto_activate | grep -E "VIOLATION|KNOWN" | head -3)
+    echo "[$p seed=$seed] :: ${out:-<no alarm>}"
   done
 done
-git -C /repo checkout -- .
+rsync -a --delete --exclude _build --exclude .git /repo/ $M/
